@@ -441,6 +441,25 @@ func ruleC04GlobalRef(p *Prog, a *Anchors, r *Report, rule string) {
 					continue
 				}
 				v := stripConv(mu.Value)
+				// a map that lives in the compiled tree (a field of a compiled type) is shared by every execution of the
+				// template just like a package-level one: templates reach Context's methods ({{ pongo2.Update(d) }})
+				{
+					inner := v
+					if mi, isMI := inner.(*ssa.MakeInterface); isMI {
+						inner = stripConv(mi.X)
+					}
+					if u, isU := inner.(*ssa.UnOp); isU && u.Op == token.MUL {
+						if fa, isFA := u.X.(*ssa.FieldAddr); isFA {
+							if sn := structOf(fa.X.Type()); sn != nil && a.CompiledTypes[sn.Obj().Name()] {
+								if _, isMap := u.Type().Underlying().(*types.Map); isMap {
+									n++
+									r.Bad(p.FuncName(f)+":ctx["+p.VN(mu.Key)+"]=compiled "+sn.Obj().Name()+"."+fieldName(fa.X.Type(), fa.Field), p.InstrPos(in), "the map kept in %s.%s (compiled tree) itself is put into a template context: templates can write it through the methods of its type and every execution of the template shares it", sn.Obj().Name(), fieldName(fa.X.Type(), fa.Field))
+									continue
+								}
+							}
+						}
+					}
+				}
 				g := globalLoaded(v)
 				if g == nil {
 					continue
